@@ -6,8 +6,12 @@ import "verif/verifrt"
 
 // C13: after every event, direct lookups and range iteration report each
 // known transaction exactly once at its current status.
-func zzC13(defs []zzTxDef, steps int) {
+func zzC13(defs []zzTxDef, steps int) { zzC13P(defs, nil, steps) }
+
+func zzC13P(defs []zzTxDef, pre []int, steps int) {
 	w := zzNewWorld(defs)
+	w.forced = pre
+	steps += len(pre)
 	for s := 0; s < steps; s++ {
 		if !w.step(s > 0) {
 			verifrt.Assume(false)
@@ -28,8 +32,12 @@ func ZzC13U2L4() { zzC13(zzU2(), 4) }
 // C02: the ledger model encodes the statement's reorg/conflict rules and is
 // compared after every event (a); at the end of every history a second store
 // is built directly from the final facts and must agree (b).
-func zzC02(defs []zzTxDef, steps int) {
+func zzC02(defs []zzTxDef, steps int) { zzC02P(defs, nil, steps) }
+
+func zzC02P(defs []zzTxDef, pre []int, steps int) {
 	w := zzNewWorld(defs)
+	w.forced = pre
+	steps += len(pre)
 	for s := 0; s < steps; s++ {
 		if !w.step(s > 0) {
 			verifrt.Assume(false)
@@ -60,3 +68,7 @@ func ZzC02U1zL3() { zzC02(zzU1z(), 3) }
 func ZzC13U7L3()  { zzC13(zzU7(), 3) }
 func ZzC13U8L3()  { zzC13(zzU8(), 3) }
 func ZzC13U1zL3() { zzC13(zzU1z(), 3) }
+
+func ZzC13U9P3L2() { zzC13P(zzU9(), zzU9Preamble(), 2) }
+func ZzC02U9P3L2() { zzC02P(zzU9(), zzU9Preamble(), 2) }
+func ZzC02U9P3L3() { zzC02P(zzU9(), zzU9Preamble(), 3) }
